@@ -14,5 +14,20 @@ for t, tn, ndt in _types:
                                    functions=["sf_%s%s_%s" % ("read" if rd else "write", "f" if framev else "", tn), "psf_memset"],
                                    bounds="handle state arbitrary within I_open (frames <= 4); len any 64-bit value, exact-size caller buffer for 0 < len <= 2 frames; codec = K-codec contract stub over a 6-frame ghost stream"))
 
+for rd in (1, 0):
+    for ch in (1, 2):
+      for probe in (0, 1):
+        if probe and not (rd and ch == 1):
+            continue
+        d = {"DIR_READ": rd, "CH": ch, "FR_MAX": 4, "MF_CAP": 40, "MF_MAXIO": 8, "PSF_MEMSET_MAX": 16}
+        if probe:
+            d["PROBE_rawtail"] = 1
+        HARNESSES.append(H("wrap.%s_raw.ch%d%s" % ("read" if rd else "write", ch, ".probe_rawtail" if probe else ""), "L4/wrap_raw.c", link=["common"], stubs=["psf_log_printf", "psf_memset"],
+                           defines=d, kf=["rawtail"], probe_for="rawtail" if probe else None,
+                           unwind=42, unwindset=["psf_memset.0:17", "psf_fread.0:9", "psf_fwrite.0:9"], checks="mem",
+                           include_env=("log_stub", "memfile", "memset_model"), timeout=300,
+                           functions=["sf_%s_raw" % ("read" if rd else "write"), "psf_default_seek"],
+                           bounds="16-bit samples, dataoffset 4, frames <= 4, request |bytes| <= 2 frames, symbolic file bytes incl. bytes after the audio data"))
+
 META = {"assumptions": ["I_open (harness/include/handle.h) is the handle invariant", "codec entry points satisfy K-codec-read/-write/K-seek (proved per codec in the codec harnesses)"],
         "outside": ["request sizes beyond 2 frames at wrapper level (arithmetic is uniform in len)"]}
